@@ -63,3 +63,23 @@ def unchanged(c, t, snap):
         conds.append(n == n0)
         conds.append(c.forall(n0, lambda k: c.eq(get(k), old.get(k))))
     return c.And(*conds) if conds else True
+
+
+def unchanged_data(c, t, snap):
+    """every representation stored before still is the same object with the same content (lazily computed caches
+    may have been added: reading a trajectory materialises them)"""
+    conds = []
+    now = views(t)
+    for f, (n0, cell0, obj0) in snap.items():
+        if f not in now:
+            return False
+        n, get, obj = now[f]
+        if obj is not obj0:
+            return False
+        cell = obj._cell[0] if isinstance(obj, sym.SArr) else obj._get
+        if cell is cell0:
+            continue
+        old = sym.SSeq(n0, cell0)
+        conds.append(n == n0)
+        conds.append(c.forall(n0, lambda k, get=get, old=old: c.eq(get(k), old.get(k))))
+    return c.And(*conds) if conds else True
